@@ -90,7 +90,7 @@ fn roundtrip(cx: &CaseCtx, rep: &mut Report, rng: &mut Rng) {
 	cx.progress("round trip");
 	for _ in 0..(if cx.tier.is_tiny() { 3 } else { 40 }) {
 		let enc = imvt::EncOpts { dup_keys: rng.chance(0.5), dup_vals: rng.chance(0.5), unused_entries: rng.chance(0.4), foreign_field_order: rng.chance(0.5) };
-		let go = imvt::GenOpts { extreme_values: rng.chance(0.6), ..Default::default() };
+		let go = imvt::GenOpts { extreme_values: rng.chance(0.6), wide_tables: if cx.tier.is_tiny() { 0.0 } else { 0.02 }, ..Default::default() };
 		let layers = imvt::gen_layers(rng, &go);
 		let bytes = imvt::encode_tile(&layers, &enc, rng);
 		let want = imvt::canonical(&layers);
@@ -101,6 +101,9 @@ fn roundtrip(cx: &CaseCtx, rep: &mut Report, rng: &mut Rng) {
 		}
 		rep.eval();
 		rep.count("roundtrip_tiles", 1);
+		if imvt::has_wide_table(&layers) {
+			rep.count("tiles_with_tables_beyond_16384_entries", 1);
+		}
 		let dup = enc.dup_keys || enc.dup_vals;
 		if dup {
 			rep.count("roundtrip_tiles_with_duplicate_table_entries", 1);
@@ -226,9 +229,10 @@ fn model_update(src: &CTile, a: &UpdateArgs, csv: &CsvSpec, st: &mut Stats) -> C
 fn update(cx: &CaseCtx, rep: &mut Report, rng: &mut Rng) {
 	let dir = cx.fresh_dir("c11");
 	let enc = imvt::EncOpts { dup_keys: rng.chance(0.3), dup_vals: rng.chance(0.3), unused_entries: rng.chance(0.3), foreign_field_order: rng.chance(0.5) };
-	let go = imvt::GenOpts { extreme_values: rng.chance(0.3), id_field: Some("osm_id".into()), max_features: 7, ..Default::default() };
+	let go = imvt::GenOpts { extreme_values: rng.chance(0.3), id_field: Some("osm_id".into()), max_features: 7, wide_tables: if cx.tier.is_tiny() { 0.0 } else { 0.02 }, ..Default::default() };
 	let sets = gen_vector_sets(rng, 1, &go, false, &enc);
 	let set = &sets[0];
+	rep.count("tiles_with_tables_beyond_16384_entries", set.layers.values().filter(|l| imvt::has_wide_table(l)).count() as u64);
 	let csv = gen_csv(rng);
 	if std::fs::write(dir.join("data.csv"), &csv.text).is_err() {
 		rep.inconclusive("cannot write the CSV fixture");
